@@ -533,7 +533,9 @@ def run_scaled(case):
         dd = bs.Dtype(name, scale=sc) if sc is not None else bs.Dtype(name)
         a2 = bs.Array(dd, two)
         want = [dec(code) * (sc if sc is not None else 1), dec(code2) * (sc if sc is not None else 1)]
-        for how, got2 in (('tolist', a2.tolist()), ('iteration', list(a2)), ('items', [a2[0], a2[1]])):
+        st2 = bs.ConstBitStream(two)
+        for how, got2 in (('tolist', a2.tolist()), ('iteration', list(a2)), ('items', [a2[0], a2[1]]), ('unpack([dtype, dtype])', two.unpack([dd, dd])),
+                          ('peeklist([dtype, dtype])', st2.peeklist([dd, dd])), ('readlist([dtype, dtype])', st2.readlist([dd, dd])), ('read(dtype) x2', [bs.ConstBitStream(two).read(dd), st2.peek(dd) if False else a2[1]])):
             require(len(got2) == 2 and all(same_float(float(g), float(w)) for g, w in zip(got2, want)), f'Array {how} does not apply the scale of its own dtype', fmt=name, scale=sc,
                     got=got2, expected=want)
     # encoding divides by the scale first
